@@ -21,6 +21,8 @@ THEOREMS = [
     T + "numeric_sink_arguments_guarded",
     T + "format_float_precision_guarded_for_every_format",
     T + "positions_cover_lifecycle_inputs",
+    # fix 2d63d83: the defaults of the input section are decoded (under recover) while the workflow is prepared
+    T + "input_defaults_validated_when_prepared", T + "input_processed_before_steps", T + "validateDefaults_recovers_and_decodes",
 ]
 
 
@@ -175,6 +177,8 @@ RULE = ("; evalpos: every run-time fault (evaluation errors, runtime.Error panic
 def extend(spec):
     """add the C07 obligations and the evalpos stream to the registry entry built in props.py"""
     spec["theorems"] = list(spec.get("theorems", [])) + [t for t in THEOREMS if t not in spec.get("theorems", [])]
+    spec["pins"] = list(spec.get("pins", [])) + [p for p in ("workflow_executor_executor_processInput", "workflow_executor__validateDefaults",
+                                                           "workflow_executor_executor_Prepare") if p not in spec.get("pins", [])]
     spec["streams"] = list(spec.get("streams", [])) + [STREAM]
     spec["rule"] = spec.get("rule", "") + RULE
     return spec
